@@ -3,6 +3,7 @@ CONSTANTS
   Focus = {"n"}
   NDcf = 3
   MaxArgv = 4
+  Repeat = TRUE
   Emit = TRUE
 INVARIANT DocumentedOrder
 INVARIANT StagesAgree
